@@ -241,15 +241,12 @@ def classify(rule, k, info, parents, lines=None):
         # the line ends up exactly one level too deep: in the opener (same indent) / in the opener's law ancestor that
         # has the line's own indent (outdent)
         chain = [o]
-        while chain[-1] != -1:
+        while chain[-1] not in (-1, None):
             chain.append(law_parent(chain[-1], info))
-            if chain[-1] is None:
-                return None
-        too_deep = [c for c in chain if c != -1 and info[c]["indent"] == ind]
-        if too_deep and actual == too_deep[0]:
+        too_deep = [c for c in chain if c not in (-1, None) and info[c]["indent"] == ind]
+        if chain[-1] == -1 and too_deep and actual == too_deep[0]:
             return "C17.same_indent_after_opener_nested" if ind == info[o]["indent"] else \
                 "C17.outdent_after_empty_opener_one_level_short"
-        return None
     # (2) an opener u directly followed by a blank/comment line: the whitespace line clears the parser's 'increment
     # required' state, the (correctly indented) first body line is flagged, the indentation bookkeeping (prev_indent,
     # parent_node) is out of step from there on, and a later unflagged line is appended to a stale parent.
@@ -278,14 +275,13 @@ def classify(rule, k, info, parents, lines=None):
     k2 = len(reduced) - 1
     if out["info"] is None or out["info"][k2]["flagged"]:
         return None
-    rest = [v for v in out["viol"] if v[1] == k2]
+    rest = out["viol"]
     if not rest:
         return "C17.blank_after_opener_then_outer_line_nested"
-    # compound: the last body line is itself an opener with an empty body; without the whitespace runs the residual
-    # mis-nesting is exactly mechanism (1)
-    if rest[0][0] == "parent" and not any(i["ws"] and j > 0 and out["info"][j - 1]["opener"] for j, i in enumerate(out["info"])) \
-            and classify("parent", k2, out["info"], out["parents"], None) in (
-                "C17.same_indent_after_opener_nested", "C17.outdent_after_empty_opener_one_level_short"):
+    # compound: a body line (or the line itself) follows an opener with an empty body; without the whitespace runs the
+    # only residual mis-nesting in the text is exactly mechanism (1)
+    if len(rest) == 1 and rest[0][0] == "parent" and classify("parent", rest[0][1], out["info"], out["parents"], None) in (
+            "C17.same_indent_after_opener_nested", "C17.outdent_after_empty_opener_one_level_short"):
         return "C17.blank_after_opener_then_outer_line_nested"
     return None
 
